@@ -19,4 +19,5 @@ import (
 	_ "verif/c15"
 	_ "verif/c16"
 	_ "verif/c17"
+	_ "verif/c18"
 )
